@@ -86,6 +86,20 @@ def resolve(desc):
             back = c14.item_mod().decode(raw)
             return [raw.hex(), type(back).__name__, bytes(back.encode()).hex()]
         return f
+    if kind.startswith("fu_item"):  # first use of the Item API: only secsgem.secs.item itself is imported by the operation
+        arg = desc[1]
+
+        def f():
+            from secsgem.secs.item import Item  # noqa: PLC0415
+
+            if kind == "fu_item_decode":
+                back = Item.decode(bytes.fromhex(arg))
+            elif kind == "fu_item_sml":
+                back = Item.from_sml(arg)
+            else:
+                back = Item.from_value(arg)
+            return [type(back).__name__, bytes(back.encode()).hex(), back.to_sml()]
+        return f
     if kind == "from_value":
         from checks import c14  # noqa: PLC0415
 
